@@ -145,6 +145,9 @@ func H19Locate() {
 	if withVersion {
 		c.Version = "0.1.0"
 	}
+	// C17: with --verify the download must fail when the provenance cannot be had (the server has none)
+	c.Verify = ndBool("verify")
+	c.Keyring = filepath.Join(dir, "no-such-keyring")
 	_, err := c.LocateChart("app", settings)
 	locMu.Lock()
 	reqs := append([]locReq(nil), locRequests...)
@@ -160,7 +163,12 @@ func H19Locate() {
 			vAssert("locate/creds-only-when-configured", hasCreds)
 		}
 	}
-	vAssert("locate/index-and-chart-requested", err == nil && len(reqs) >= 2 && sawChart && strings.HasSuffix(reqs[0].url, "/charts/index.yaml"))
+	if c.Verify {
+		vAssert("locate/verify-required-and-no-provenance-is-an-error", err != nil)
+		vAssert("locate/index-and-chart-requested", len(reqs) >= 2 && sawChart && strings.HasSuffix(reqs[0].url, "/charts/index.yaml"))
+	} else {
+		vAssert("locate/index-and-chart-requested", err == nil && len(reqs) >= 2 && sawChart && strings.HasSuffix(reqs[0].url, "/charts/index.yaml"))
+	}
 	if hasCreds {
 		vAssert("locate/index-request-carries-credentials", reqs[0].auth == locRepoAuth)
 	}
